@@ -27,6 +27,6 @@ PROP = dict(
         gt("oracle", "wrappers", "TestVerifC27Oracle", dict(shards=1), dict(shards=1), rapid=False),
         gt("lines", "wrappers", "TestVerifC27Lines", dict(checks=5000, shards=2), dict(checks=200000, shards=14)),
         gt("mutate", "wrappers", "TestVerifC27Mutate", dict(checks=4000, shards=1), dict(checks=200000, shards=1)),
-        gt("installed", "wrappers", "TestVerifC27Installed", dict(checks=1500, shards=1), dict(checks=40000, shards=1)),
+        gt("installed", "wrappers", "TestVerifC27Installed", dict(checks=1500, shards=1), dict(checks=20000, shards=1)),
     ],
 )
